@@ -202,6 +202,32 @@ CHECKS['C07'] = dict(
          'input\'s unit can leak. Rounding at decision thresholds is excluded by the property.',
     design='4/C07', engine='sa.sx + sa.solver_ir')
 
+LINTS = ('; AST lints over the modules the property lives in, run before anything is evaluated, for state Python keeps outside '
+         'the modelled objects: mutable defaults that are changed, late-binding closures, memoisation over object state, self-storing '
+         'descriptors, private-name stores outside the class (no mangling), functions closing over self stored on the object')
+EXTRA = {
+    'C01': '; early exits of the propagation loops; Powertrain.reset re-read (fresh list per variable); C10 ratio rules and the C06 triples met re-read',
+    'C02': '; loop-carried values substituted in the driving rule; C08 laws, reset and C06 triples re-read',
+    'C03': '; value-order lint (sort/sorted pairs element data by value); C12 continuation rule and reset re-read',
+    'C05': '; comparison predicates decided on sign-partitioned evaluation points of the SI difference around the tolerance (tolerance-absorption rule); duplicate table keys; private-copy stores of constructors',
+    'C06': '; per-kind negation rule with dispatch inside the units package; accepted pairs may raise only TypeError / ZeroDivisionError for division / ValueError for a sign-constrained result kind; operand-purity rule',
+    'C08': '; boundary tests census incl. truth-arithmetic forms; linear-combination infeasibility of guard pairs',
+    'C09': '; worm table rows; role-without-link states excluded from the flag tables',
+    'C10': '; raw truth values handed to bool setters (numpy operands)',
+    'C11': '; identity tests between numbers; round(x, n) and opaque pure numeric helpers as uninterpreted functions',
+    'C12': '; try/finally evaluated (final block on every exit); identity tests; C11 grid/count rules re-read for the continuation',
+    'C13': '; C10 effects of all relation functions and the who-may-write census of the worm flag re-read; C03 integration rule and C12 continuation rule re-read',
+    'C14': '; itertools.pairwise and numpy.clip modelled; the controller applied at an instant is the argument of this call in every context',
+    'C15': '; value semantics of and/or; role filters on the efficiency product',
+    'C16': '; C05 comparison/table/to() rules of the compared kinds and sub-kinds re-read',
+    'C17': '; every recording instant computes the same derived quantities; who-may-write census of the histories and of the time axis',
+    'C18': '; export utility decided by abstract evaluation per variable kind',
+    'C19': '; raising paths of to() must not have stored; the constructor duty-cycle store is a constant in range or goes through the setter',
+    'C20': '; flag read through the getter; frozen pure getters; C10 atomicity of the links',
+}
+for _pid, _c in CHECKS.items():
+    _c['technique'] = _c['technique'] + EXTRA.get(_pid, '') + LINTS
+
 NOT_APPLICABLE = {
     'C04': 'limit statement (error = O(dt) as dt -> 0) against an analytic oracle; no sound static argument in reach '
            'bounds a global discretisation error. Its code-shape ingredients (consistent first-order integrator, torque '
